@@ -5,4 +5,4 @@ D=/tmp/seedrun-try/$ID; rm -rf $D; mkdir -p $D; rsync -a --exclude target --excl
 (cd $D && patch -p1 -s < /verif/seeded/$ID/patch.diff) || { echo PATCH-FAILED; exit 1; }
 cd /verif
 for p in "$@"; do echo "##### seed=$ID prop=$p"; ./check $p --repo $D 2>&1 | cut -c1-400 | tail -${TAILN:-25}; echo "rc=${PIPESTATUS[0]}"; done
-rm -rf $D /verif/build/native/$(python3 -c "import hashlib,os;print(hashlib.sha256(os.path.abspath('$D').encode()).hexdigest()[:8])")
+H=$(python3 -c "import hashlib,os;print(hashlib.sha256(os.path.abspath('$D').encode()).hexdigest()[:8])"); rm -rf $D /verif/build/native/$H /verif/build/kani/$H
